@@ -1408,8 +1408,13 @@ fn add_dirent<S: BitmapSlice>(
         padded_dirent_len
     };
 
-    // Skip the entry if there's no enough space left.
-    if (max as usize).saturating_sub(cursor.bytes_written()) < total_len {
+    // Skip the entry if there's no enough space left, either in the size requested by the
+    // client or in the buffer actually backing the cursor.
+    let space_left = std::cmp::min(
+        (max as usize).saturating_sub(cursor.bytes_written()),
+        cursor.available_bytes(),
+    );
+    if space_left < total_len {
         Ok(0)
     } else {
         if let Some(entry) = entry {
